@@ -303,7 +303,7 @@ pub fn c20(run: &mut Run) {
                 let mut lines = Vec::new();
                 for l in txt.lines() {
                     lines.push(l.to_string());
-                    if l.contains("FAIL") || l.contains("same=false") || (l.starts_with("DYN predicates") && !l.ends_with("mismatches=0")) || l.contains("numlock=false") {
+                    if l.contains("FAIL") || l.contains("same=false") || (l.starts_with("DYN predicates") && !l.ends_with("mismatches=0")) {
                         run.violation(Violation {
                             sig: format!("C20:dynamic:{}", l.replace(' ', "_").chars().take(80).collect::<String>()),
                             what: format!("const-evaluated value differs from the run-time value: {}", l),
